@@ -50,7 +50,9 @@ use verif_harness::*;
 
 const HASH_MASK: u64 = 2147483647;
 const DRAIN_CAP: usize = 4096;
-const WATCHDOG_MS: u64 = 60000;
+// below the 30 s the check's shrinker / replay gives a single case, so that a stall is
+// always reported by the harness itself (with what never completed), not by the runner
+const WATCHDOG_MS: u64 = 25000;
 
 fn watchdog_ms() -> u64 {
     std::env::var("C14_WATCHDOG_MS").ok().and_then(|s| s.parse().ok()).unwrap_or(WATCHDOG_MS)
@@ -1923,7 +1925,7 @@ macro_rules! bulk_pair_run {
 }
 
 fn bulk_watchdog_ms() -> u64 {
-    std::env::var("C14_BULK_WATCHDOG_MS").ok().and_then(|s| s.parse().ok()).unwrap_or(45000)
+    std::env::var("C14_BULK_WATCHDOG_MS").ok().and_then(|s| s.parse().ok()).unwrap_or(WATCHDOG_MS)
 }
 
 fn bulk_case(c: &mut Case) -> Result<Vec<u64>, BadCase> {
